@@ -373,6 +373,41 @@ Definition c_inner_v (w : tweight) (xr xi yr yi : list T) : T * T :=
   (t_inner_v w xr yr + t_inner_v w xi yi, t_inner_v w xi yr - t_inner_v w xr yi).
 (* |z|^2 summed: the real quantity the complex norms are built from *)
 Definition c_abs2 (xr xi : list T) : list T := vadd (vmul xr xr) (vmul xi xi).
+
+(* complex spaces of any nesting: an element is a pair (re, im) of element trees of one shape.
+   Leaves: tensor / discretized (boundary scaling acts on re and im of the FIRST argument).
+   Nodes: ProductSpace{Const,Array}Weighting.inner gathers x1i.inner(x2i) -- in this operand
+   order -- and returns const * sum(inners) resp. dot(inners, w) with real weights. *)
+Definition c_leaf_inner (q : quirks) (lf : leaf) (xr xi yr yi : list T) : outcome (T * T) :=
+  match lf with
+  | LTensor _ _ w p => if is2 p then Ok (c_inner_v (t_weight w) xr xi yr yi) else NotImpl
+  | LDiscr _ axes w p =>
+      let tw := d_weight axes w p in
+      if negb (is2 p) then NotImpl
+      else if unif_weighted q axes tw p then Ok (c_inner_v tw xr xi yr yi)
+      else Ok (c_inner_v tw (scale_bdry (fun f => f) axes xr) (scale_bdry (fun f => f) axes xi) yr yi)
+  end.
+Definition collect4 (f : space -> elem -> elem -> elem -> elem -> outcome (T * T)) :=
+  fix go (cs : list space) (xr xi yr yi : list elem) : outcome (list (T * T)) :=
+    match cs, xr, xi, yr, yi with
+    | [], [], [], [], [] => Ok []
+    | c :: cs', a :: xr', b :: xi', u :: yr', v :: yi' =>
+        bind (f c a b u v) (fun z => bind (go cs' xr' xi' yr' yi') (fun zs => Ok (z :: zs)))
+    | _, _, _, _, _ => ShapeErr
+    end.
+Definition cps_inner_comb (w : pweight) (zs : list (T * T)) : T * T :=
+  (ps_inner_comb w (map fst zs), ps_inner_comb w (map snd zs)).
+Fixpoint csp_inner (q : quirks) (s : space) (xr xi yr yi : elem) {struct s} : outcome (T * T) :=
+  match s, xr, xi, yr, yi with
+  | SLeaf lf, ELeaf ar, ELeaf ai, ELeaf br, ELeaf bi => c_leaf_inner q lf ar ai br bi
+  | SProd w p cs, ENode xrs, ENode xis, ENode yrs, ENode yis =>
+      if negb (is2 p) then NotImpl
+      else match cs with
+           | [] => if q_ps_empty_raises q then IndexErr else Ok (nzero, nzero)
+           | _ => bind (collect4 (csp_inner q) cs xrs xis yrs yis) (fun zs => Ok (cps_inner_comb w zs))
+           end
+  | _, _, _, _, _ => ShapeErr
+  end.
 End M.
 
 (* ------------------------------------------------------------------ *)
